@@ -229,6 +229,8 @@ def gen_worker_script(rs: int, knobs: Optional[dict] = None) -> dict:
         "validate_params": rc.choice(kn["validate_params"]),
         "faults": faults,
     }
+    if kn.get("p_warn_error") and stream(rs, "warn_error").random() < kn["p_warn_error"]:
+        cfg["warn_error"] = True          # the worker process runs with `-W error::RuntimeWarning -W error::UserWarning`
     if cfg["A"] is None:
         # "no limit" has three spellings: None, 0 and any negative number
         cfg["A_raw"] = stream(rs, "a_raw").choice([None, None, 0, 0, -1, -5])
